@@ -2,7 +2,9 @@ SPECIFICATION Spec
 INVARIANT Inv
 CHECK_DEADLOCK FALSE
 CONSTANTS
-  MaxBlocks = 2
+  Limit = 24
+  MaxOps = 3
+  Sizes = {0, 1, 8, 9, 23, 24, 25}
   PermOp <- SPermOp
   BX <- SBX
   BC <- SBC
